@@ -45,6 +45,10 @@ def descriptions(ctx):
             fs = dflow_gen.with_failures(d)
             if fs:
                 descs.append(rng.choice(fs))
+    only = os.environ.get("VERIF_DFLOW_ONLY")          # development aid: restrict to the named shapes (and their variants)
+    if only:
+        names = set(only.split(","))
+        descs = [d for d in descs if d["name"].split("+")[0].split("!")[0] in names or d["name"] in names]
     return descs
 
 
@@ -154,7 +158,7 @@ def run_all(ctx, focus):
         probs.append(pb)
     files = {"TraceI.tla": dt.constants_module(descs, module="TraceI", extends="Trace_Dataflow"), "TraceI.cfg": dt.TRACE_CFG}
     verdicts = trace.validate(ctx, "Dataflow", "TraceI", "TraceI.cfg", traces, files=files, dfs=True, timeout=2400,
-                              extra_env={"IGNORE_DEPS": "0"})
+                              extra_env={"IGNORE_DEPS": "0"}, max_diagnose=10)
     # rejected traces: is provenance (the dependee sets) the only thing the specification cannot explain?
     rej = [i for i, v in enumerate(verdicts) if not v["ok"] and v["reason"] == "rejected"]
     if rej:
@@ -198,6 +202,12 @@ def judge(ctx, focus, d, exp, r, tr, v, pb, dead):
                 ctx.violation("provenance:dependees-differ-from-consumed-inputs:%s" % kinds.get(ev.get("step"), "?"), dict(detail, verdict=v, trace=tr),
                               "token %s@%s emitted by %s of %s is linked to %s, which is not the set of tokens it was computed from" % (
                                   ev.get("port"), ev.get("tag"), ev.get("step"), name, ev.get("deps")))
+            elif v.get("provenance_only"):
+                # accepted once the dependee sets are ignored; the longest matched prefix was not computed (more rejected
+                # traces than diagnosis runs)
+                ctx.violation("provenance:dependees-differ-from-consumed-inputs:undiagnosed", dict(detail, verdict=v, trace=tr),
+                              "a token of %s is linked to other tokens than those it was computed from (the trace is accepted "
+                              "only when the recorded dependees are ignored)" % name)
             else:
                 ctx.violation("trace-rejected:%s:%s:%s" % (v["reason"], kind, (ev or {}).get("step") if isinstance(ev, dict) else "-"),
                               dict(detail, verdict=v, trace=tr), what)
